@@ -31,6 +31,27 @@ def v_input(n):
 def v_assert(cond, label):
     if not cond:
         REPLAY["asserts"].append(label)
+        if REPLAY.get("on_assert"):
+            REPLAY["on_assert"](label)  # replays with real processes report to their coordinator
+
+
+@_intrinsic("text")
+def v_text(g):
+    """the text stored under identifier g (model: the tag g itself)"""
+    return "t%d" % g
+
+
+@_intrinsic("texts_match")
+def v_texts_match(out, ids):
+    """out == [text(g) for g in ids]"""
+    return list(out) == ["t%d" % g for g in ids]
+
+
+@_intrinsic("role")
+def v_role(name):
+    """start of a process body (replays with real processes learn who they are); no effect in the model"""
+    if REPLAY.get("on_role"):
+        REPLAY["on_role"](name)
 
 
 @_intrinsic("out_is_identity")
@@ -229,6 +250,16 @@ def dispatch(ex, ts, pst, th, name, args, kwargs):
         n = "fault.%s:b" % args[0]
         w.declare(n, "b", False)
         st.append(pst.read(n, "b"))
+        return None
+    if name == "text":
+        st.append(args[0])
+        return None
+    if name == "role":
+        st.append(None)
+        return None
+    if name == "texts_match":
+        out, ids = args
+        st.append(ex.seq_eq(out, ids) if isinstance(out, SList) and isinstance(ids, SList) else False)
         return None
     if name == "thread_done":
         tn = w.thread_of_obj.get(id(args[0])) or getattr(args[0], "_vf_name", None)
